@@ -448,6 +448,15 @@ func targets() []target {
 	}
 }
 
+func safeSpecItem(v interface{}) (it interface{}, ok bool) {
+	defer func() {
+		if recover() != nil {
+			ok = false
+		}
+	}()
+	return specItem(reflect.ValueOf(v).Elem()), true
+}
+
 func typed(run *hx.Run, rng *hx.Rng) {
 	nVals := 300
 	if run.Thorough() {
@@ -487,6 +496,13 @@ func typed(run *hx.Run, rng *hx.Rng) {
 			if err != nil {
 				run.Violate("encode-error", t.name, t.name, err.Error())
 				continue
+			}
+			// tie the typed encoder to the spec encoder: the model re-encodes the independently derived item
+			if it, ok := safeSpecItem(v); ok {
+				run.Case("enc "+render(it), "ok "+hx.Hex(enc))
+				run.Count("enc-typed")
+			} else {
+				run.Count("enc-typed-skipped")
 			}
 			run.Current("typed-rt " + t.name + " " + hx.Hex(enc))
 			out := hx.Safe(func() string {
